@@ -945,6 +945,7 @@ func ruleRepStruct(c *Ctx, r *R) {
 			}
 		}
 	}
+	structWritersRule(c, r)
 	for _, fn := range []string{"NewStruct", "newStructByIndex"} {
 		ps := c.pathsOf(fn)
 		if len(ps) == 0 {
@@ -1693,6 +1694,24 @@ func ruleRepRawSlice(c *Ctx, r *R) {
 			if fd != nil {
 				name = c.fnName(fd)
 			}
+			// the element type handed to the raw constructor is the element type of the slice the
+			// data comes from: a .value() of a type word, the sliceT's own valueType, a parameter
+			// named so, or a type constant — never the key half of pair() or anything else
+			if len(call.Args) == 2 {
+				te := unparen(call.Args[0])
+				if id, isId := te.(*ast.Ident); isId {
+					if def := c.singleDef(id); def != nil {
+						te = unparen(def)
+					}
+				}
+				ts := nosp(c.Src(te))
+				okType := strings.HasSuffix(ts, ".t.value()") || strings.HasSuffix(ts, ".valueType") || ts == "valueType" || strings.HasPrefix(ts, "Type")
+				if _, isConst := c.ConstOf(te); isConst {
+					okType = true
+				}
+				r.check(okType, "newSlice element type in "+name, c.Pos(call), "the element type is the source slice's own element type",
+					name+" hands newSlice the element type `"+c.Src(call.Args[0])+"` ("+ts+"), which is not the value() of the source's type word: e.g. the first half of pair() keeps only the base tag, so slices.Delete on a [][]float64 returns a [][]any and a constant appended to a row later stays an int")
+			}
 			why, ok := rawSliceSites[name]
 			if name == "sliceT.Append" && !ok {
 				bad := c.appendConvertsTail()
@@ -1975,4 +1994,53 @@ func literalCapRule(c *Ctx, r *R) {
 	}
 	r.check(exact, "NEWSLICE capacity", c.Pos(sc.Clause), "the literal's data is allocated with capacity == length",
 		"the NEWSLICE handler builds the literal's data with spare capacity (append to nil rounds up to an allocation size class): for an 18-element literal a, b := append(a, 100); c := append(a, 200) write the same slot — b[18] is 200 and b[0] = -1 changes a[0]")
+}
+
+// structWritersRule: who may write a struct object's tables. Field *values* change through
+// SetIndex -> intMap.Assign (which never inserts); a field is *created* only by addField (a
+// type declaration) and a method only by addMethod. Anything else that inserts — e.g. a lookup
+// that caches a bound method in the receiver's field table — makes an instance's table differ
+// from its type's and freezes what it cached across a reload.
+func structWritersRule(c *Ctx, r *R) {
+	allowed := map[string]map[string]bool{
+		"Fields":  {"Value.addField": true, "structT.SetIndex": true},
+		"Methods": {"Value.addMethod": true},
+	}
+	n := 0
+	for _, name := range c.FuncNames() {
+		fd := c.Func(name)
+		if fd.Body == nil {
+			continue
+		}
+		ast.Inspect(fd.Body, func(m ast.Node) bool {
+			call, ok := m.(*ast.CallExpr)
+			if !ok {
+				return true
+			}
+			cn := c.CalleeName(call)
+			if cn != "intMap.Set" && cn != "intMap.Assign" && cn != "intMap.Delete" && cn != "intMap.insert" {
+				return true
+			}
+			sel, ok := unparen(call.Fun).(*ast.SelectorExpr)
+			if !ok {
+				return true
+			}
+			fs, ok := unparen(sel.X).(*ast.SelectorExpr)
+			if !ok || (fs.Sel.Name != "Fields" && fs.Sel.Name != "Methods") {
+				return true
+			}
+			n++
+			key := fmt.Sprintf("%s.%s in %s", fs.Sel.Name, strings.TrimPrefix(cn, "intMap."), name)
+			okW := allowed[fs.Sel.Name][name]
+			if name == "structT.SetIndex" && cn != "intMap.Assign" {
+				okW = false // a field store never inserts
+			}
+			r.check(okW, key, c.Pos(call), "written by its owner only (addField / addMethod / SetIndex->Assign)",
+				name+" writes a struct object's "+fs.Sel.Name+" table with "+cn+": only a declaration may create an entry (addField / addMethod) and only SetIndex stores a field value, through Assign. A lookup that caches a bound method in the receiver's field table keeps serving the method as it was bound — after a reload that changes its parameter list, t.M(a, b) on a receiver that had called M before fails with `incorrect args` and never runs the new body")
+			return true
+		})
+	}
+	if n == 0 {
+		r.undecided("struct table writers", "-", "no write to a Fields/Methods table found")
+	}
 }
